@@ -357,8 +357,11 @@ CHECKS = {
           "counting conditions, quotient) are regenerated from numerics.pyx "
           "on every run and proved to count what the model counts; the two "
           "n.s.i. kernels and the A + Id their callers pass are matched "
-          "statement by statement (fail-closed) and their whole-node-set "
-          "limits are checked on the implementation with random node weights.",
+          "statement by statement (fail-closed), proved to compute exactly "
+          "the terms nsi_cross_transitivity / nsi_cross_local_clustering of "
+          "Model/Measures.v (symmetric reflexive A+, duplicate-free lists), "
+          "and their whole-node-set limits are checked on the implementation "
+          "with random node weights.",
   "design_ref": "DESIGN.md section 5, C11",
   "note": "trusted: igraph path lengths (the sub-block relation is checked "
           "on them, not their values); most methods have no Coq model "
